@@ -353,7 +353,12 @@ func scenarioC13(r *Run) {
 			r.YieldsOn("yield-seed")
 			r.Count("concurrent_opens")
 		}
+		// (the table may be full when a version request is refused and empty again when the batch is judged -
+		// the once-a-minute prune retires the silent sessions of a filled table all at once - so fullness is
+		// sampled at every driver step while the batch runs)
+		wasFull := tableFull()
 		out := r.Drive(p2, func() bool {
+			wasFull = wasFull || tableFull()
 			for _, p := range pend {
 				if !p.done {
 					return false
@@ -416,7 +421,7 @@ func scenarioC13(r *Run) {
 				pool = kept
 				continue
 			}
-			if p.done && p.err != nil && tableFull() {
+			if p.done && p.err != nil && (tableFull() || wasFull && strings.Contains(p.err.Error(), "VFUL")) {
 				// every identifier is taken by a live session: refusing a new one is what the server must do
 				r.Count("refused_because_table_full")
 				p.s.state = "none"
